@@ -56,7 +56,7 @@ def op_index(heap, v, idx):
         if not -len(items) <= k < len(items):
             return mk_none(), (z3.BoolVal(True), IndexError)
         return items[k], None
-    i = coerce(idx, INT).term if not isinstance(ty, (TDict, TMapSeq)) else None
+    i = coerce(idx, INT).term if not isinstance(ty, (TDict, TMapSeq, TMap)) else None
     if isinstance(ty, TStr):
         n = slen(v.term)
         j = norm_index(i, n)
@@ -72,6 +72,9 @@ def op_index(heap, v, idx):
     if isinstance(ty, TDict):
         k = coerce(idx, ty.k).term
         return heap.dict_get(ty.k, ty.v, v.term, k), (z3.Not(heap.dict_has(ty.k, v.term, k)), KeyError)
+    if isinstance(ty, TMap):
+        k = coerce(idx, ty.k).term
+        return SV(ty.v, [z3.Select(v.t[1], k)]), (z3.Not(z3.Select(v.t[0], k)), KeyError)
     if isinstance(ty, TMapSeq):
         k = coerce(idx, ty.k).term
         return SV(TSeq(ty.elem), [z3.Select(v.t[1], k), z3.Select(v.t[2], k)]), (z3.Not(z3.Select(v.t[0], k)), KeyError)
@@ -214,7 +217,7 @@ def op_contains(container, item, heap):
         return heap.dict_has(ty.k, container.term, coerce(item, ty.k).term)
     if isinstance(ty, TSet):
         return heap.set_has(ty.k, container.term, coerce(item, ty.k).term)
-    if isinstance(ty, (TMapSeq, TKeySet)):
+    if isinstance(ty, (TMapSeq, TKeySet, TMap)):
         return z3.Select(container.t[0], coerce(item, ty.k).term)
     if isinstance(ty, TStr) and isinstance(item.ty, TStr):
         k = z3.Int(fresh_name('k'))
